@@ -12,7 +12,7 @@ package quickfix
 //@ spec digitsA(a int, lo int, hi int) bool = forall j :: lo <= j && j < hi ==> 48 <= bcell(a, j) && bcell(a, j) <= 57
 //@ spec alldigits(d []byte, k int) bool = digitsA(arr(d), off(d), off(d)+k)
 
-//@ func parseUInt [C09,C14]
+//@ func parseUInt [C09,C11,C14]
 //@   ensures @accept (err == nil) <==> (len(d) > 0 && alldigits(d, len(d)))
 //@   ensures @value err == nil ==> n == wdec(arr(d), off(d), len(d))
 //@   loop 1 invariant @digits alldigits(d, $i+1)
@@ -22,7 +22,7 @@ package quickfix
 //@ spec isint(d []byte) bool = len(d) > 0 && (d[0] == 45 ? (len(d) > 1 && digitsA(arr(d), off(d)+1, off(d)+len(d))) : digitsA(arr(d), off(d), off(d)+len(d)))
 //@ spec intval(d []byte) mathint = d[0] == 45 ? wrap64(0 - wdec(arr(d), off(d)+1, len(d)-1)) : wdec(arr(d), off(d), len(d))
 
-//@ func atoi [C09,C14]
+//@ func atoi [C09,C11,C14]
 //@   ensures @accept (result1 == nil) <==> isint(d)
 //@   ensures @value result1 == nil ==> result0 == intval(d)
 
